@@ -401,9 +401,24 @@ def _run_unit_once(unit, verify_args, tier, seed, prefixes, res, pulls, demote=N
         if nc:
             weak[(f["file"], f["path"].split("#")[0])] = nc
     inlined = {(f["file"], f["path"].split("#")[0]) for f in meta["functions"] if f.get("inlined")}
+    # same query, different answer: a function whose text is byte-identical to the pinned tree, in a unit whose items (types, constants)
+    # are all unchanged, with no helper inlined into it, generates the verification condition it generated on the pinned tree, where it was
+    # discharged. If it fails now, the cause is the verifier (solver instability, or the known Verus quirk by which an unrelated change
+    # stops `from_spec` from unfolding in the `impl From<..> for RequestError` functions), not the code: undecided, never an alarm.
+    # (A changed constant or type - e.g. HEADER_LENGTH - is an item change, so failures it causes in unchanged functions stay violations;
+    #  so do call-site preconditions, which belong to the - changed - caller.)
+    lost_any = bool(meta.get("lost"))      # a demoted callee keeps its contract, but stay conservative: no downgrade when anything was demoted
+    same_vc = set()
+    if not meta.get("items_changed") and not meta.get("pulled"):
+        same_vc = {(f["file"], f["path"].split("#")[0]) for f in meta["functions"]
+                   if f.get("unchanged") and not f.get("has_inlined") and not f.get("calls_uncontracted") and not f.get("ext_body")}
     kept = []
     for f in failures:
         key = (f.get("file"), str(f.get("fn", "")).split("#")[0])
+        if key in same_vc and f.get("kind") != "callee-requires" and not lost_any:
+            terrs.append(f"verifier instability: {f.get('obligation')} fails although the function, the types and the constants of the unit are "
+                         f"byte-identical to the pinned tree, where the same obligation was discharged")
+            continue
         if key in inlined:
             continue        # R31: the helper's body is checked where it was inlined (with the caller's facts); its standalone copy has no precondition
         if key in weak:
